@@ -4,7 +4,7 @@
    computation over the regenerated lists. *)
 From Coq Require Import List ZArith NArith Bool Lia PArith FMapPositive.
 From Pcfg Require Import Str Multiword Detect Segment SegCorr DetectProofsStr DetectProofsDrive DetectProofsSimple
-     DetectProofsMw DetectProofsSeg DetectProofsWeb.
+     DetectProofsMw DetectProofsSeg DetectProofsWeb DetectProofsKbd.
 From PcfgGen Require Import Consts_gen Unicode_gen.
 Import ListNotations.
 Open Scope Z_scope.
@@ -70,17 +70,19 @@ Qed.
 Lemma side_lower_aligned : seg_lower_aligned = true.
 Proof. reflexivity. Qed.
 
-(* C05 for the pipeline; the keyboard-walk detector as a hypothesis *)
-Definition c_kw_split_ok := kw_split_ok c_isalpha c_isdigit c_lower c_kbs kb_false_positive_words c_min_run year_prefixes context_strings.
+Lemma side_min_run : 4 <= c_min_run.
+Proof. vm_compute. discriminate. Qed.
 
-Theorem parse_c_ok : c_kw_split_ok ->
+(* C05 for the pipeline *)
+Theorem parse_c_ok :
   forall m pw, pw <> [] ->
   exists r, parse_c m pw = POk r /\ tiles c_pm pw (p_sections r) /\ Forall c_sound (p_sections r) /\
             Forall (fun y => snd y <> None) (p_sections r).
 Proof.
-  intros Hk m pw Hne. unfold parse_c, parse_gen. rewrite side_lower_aligned.
+  intros m pw Hne. unfold parse_c, parse_gen. rewrite side_lower_aligned.
   apply (parse_ok c_isalpha c_isdigit c_isupper c_lower c_kbs kb_false_positive_words c_min_run tld_list
-           year_prefixes context_strings c_threshold c_min_len c_max_len side_min_len side_year_prefixes Hk).
+           year_prefixes context_strings c_threshold c_min_len c_max_len side_min_len side_year_prefixes).
+  - apply kw_split_ok_proved. exact side_min_run.
   - apply email_split_ok_proved.
   - apply website_split_ok_proved. exact side_tlds_nonempty.
   - apply good_all.
@@ -143,3 +145,14 @@ Lemma demo_parse :
                             ([112; 97; 115; 115]%N, Some (LA 4)); ([33]%N, Some (LO 1))] /\
             w_demo <> [].
 Proof. eexists. repeat split; try (vm_compute; reflexivity). discriminate. Qed.
+
+Theorem parse_c_never_raises : forall m pw, pw <> [] -> parse_c m pw <> PErr.
+Proof. intros m pw H E. destruct (parse_c_ok m pw H) as (r & Hr & _). congruence. Qed.
+
+Theorem kw_c_ok : forall pw, pw <> [] ->
+  exists sl f, detect_keyboard_walk c_isalpha c_isdigit c_lower c_kbs kb_false_positive_words c_min_run (length pw) pw
+               = Some (sl, f) /\ tiles c_pm pw sl /\ Forall c_sound sl.
+Proof.
+  intros pw H. destruct (kw_ok c_isalpha c_isdigit c_lower c_kbs kb_false_positive_words c_min_run year_prefixes
+                        context_strings side_min_run (length pw) pw (Nat.le_refl _) H) as (sl & f & H1 & H2 & H3 & _). eauto.
+Qed.
